@@ -167,7 +167,13 @@ class InsecureHomeKitProtocol(asyncio.Protocol):
             # close the connection as we are now out of sync with the device
             # and any future requests will fail since the encryption counters
             # will be out of sync.
-            self.transport.write_eof()
+            try:
+                self.transport.write_eof()
+            except OSError:
+                # The accessory has reset the connection already and the
+                # event loop has not noticed yet: there is nothing left
+                # to shut down, and the caller is owed its own exception.
+                pass
             _close_transport(self.transport)
             if isinstance(ex, asyncio.TimeoutError):
                 timeout_expired = True
